@@ -539,6 +539,8 @@ def derive(F, m, how, x, ctx):
             return F, m       # concatenated labels of mixed lengths are ambiguous
         k = 2 if how == "even" else 1 + x[0] % 3
         if max(1, len(m.labels())) ** k > 200:
+            if how == "even":
+                return F, m       # too many length-2 words: leave the automaton as it is
             k = 1
         return op_multiple(F, m, k, ctx, even=(how == "even"), lang_len=1)
     if how in ("rlp", "rlp_tree"):
